@@ -139,7 +139,8 @@ pub fn cyber_cycle<T: Scalar>(x: &[T], n: usize) -> Option<T> {
     let s = |i: usize| -> T { (x[i] + two * x[i - 1] + two * x[i - 2] + x[i - 3]) / t::<T>(6.0) };
     let mut cc: Vec<T> = Vec::with_capacity(x.len());
     for i in 0..x.len() {
-        if i + 1 < n {
+        // six values are buffered at the least (three smoothed values of four inputs each)
+        if i + 1 < n.max(6) {
             cc.push(T::zero());
             continue;
         }
